@@ -49,6 +49,9 @@ func (els *EncryptedLeaseSet) Verify() error {
 // present, otherwise constructs a key from sigType + blindedPublicKey.
 func (els *EncryptedLeaseSet) signingPublicKeyForVerification() (types.SigningPublicKey, error) {
 	if els.HasOfflineKeys() && els.offlineSignature != nil {
+		if err := els.verifyOfflineSignature(); err != nil {
+			return nil, err
+		}
 		transientKeyBytes := els.offlineSignature.TransientPublicKey()
 		transientSigType := els.offlineSignature.TransientSigType()
 		spk, err := key_certificate.ConstructSigningPublicKeyByType(
@@ -66,4 +69,25 @@ func (els *EncryptedLeaseSet) signingPublicKeyForVerification() (types.SigningPu
 		return nil, oops.Errorf("failed to construct blinded signing public key: %w", err)
 	}
 	return spk, nil
+}
+
+// verifyOfflineSignature checks that the transient key of the offline block
+// was authorised by the blinded key: the block's signature must verify over
+// expires || sigtype || transient_public_key under the blinded public key.
+// Without this check anyone could attach a transient key of their choosing
+// (with a meaningless offline signature) and sign the lease set with it.
+func (els *EncryptedLeaseSet) verifyOfflineSignature() error {
+	blindedKey, err := key_certificate.ConstructSigningPublicKeyByType(
+		els.blindedPublicKey, int(els.sigType))
+	if err != nil {
+		return oops.Errorf("failed to construct blinded signing public key: %w", err)
+	}
+	verifier, err := blindedKey.NewVerifier()
+	if err != nil {
+		return oops.Errorf("failed to create verifier for offline signature: %w", err)
+	}
+	if err := verifier.Verify(els.offlineSignature.SignedData(), els.offlineSignature.Signature()); err != nil {
+		return oops.Errorf("offline signature is not signed by the blinded key: %w", err)
+	}
+	return nil
 }
